@@ -845,6 +845,65 @@ Qed.
 Theorem pushed_only_plus plus k entry : plus = false -> pushed plus k entry = None.
 Proof. intros ->. reflexivity. Qed.
 
+(* ====================== NGINX as a process: what it uses after an endpoints update ====================== *)
+
+Lemma upd_all_files plus on xs :
+  map fst (fst (upd_all plus on xs)) = map (fun x => snd (fst x)) xs.
+Proof.
+  induction xs as [|[[ok new] st] r IH]; [reflexivity|]. simpl.
+  destruct (upd_one plus on ok new st) as [st' need] eqn:E. destruct (upd_all plus on r) as [sts need'].
+  simpl in *. f_equal; [|assumption].
+  unfold upd_one in E. destruct plus, on, ok; injection E as <- _; reflexivity.
+Qed.
+
+Lemma upd_all_live plus xs :
+  snd (upd_all plus true xs) = false -> plus = true ->
+  map snd (fst (upd_all plus true xs)) = map (fun x => snd (fst x)) xs.
+Proof.
+  intros H ->. induction xs as [|[[ok new] st] r IH]; [reflexivity|]. simpl in *.
+  destruct ok; simpl in *; destruct (upd_all true true r) as [sts need']; simpl in *.
+  - f_equal. now apply IH.
+  - discriminate.
+Qed.
+
+(* outside a batch: whatever the API did for whichever resource of the list -- a failure for the
+   first, a middle or the last one, for several, for none -- after UpdateEndpoints* NGINX uses, for
+   every resource, the servers just written for it (NGINX OSS and Plus) *)
+Theorem update_endpoints_live plus xs :
+  map snd (update_endpoints plus true xs) = map (fun x => snd (fst x)) xs.
+Proof.
+  unfold update_endpoints. pose proof (upd_all_files plus true xs) as Hf.
+  pose proof (upd_all_live plus xs) as Hl.
+  destruct (upd_all plus true xs) as [sts need]. simpl in *.
+  destruct plus; simpl.
+  - destruct need; simpl.
+    + unfold reload_all. rewrite map_map. simpl. rewrite <- Hf. reflexivity.
+    + now apply Hl.
+  - unfold reload_all. rewrite map_map. simpl. rewrite <- Hf. reflexivity.
+Qed.
+
+(* inside a batch (reloads disabled) the files are written and nothing is loaded; the reload at
+   the end of the batch makes NGINX use them *)
+Theorem batch_then_reload_live plus xs :
+  map snd (end_of_batch true (update_endpoints plus false xs)) = map (fun x => snd (fst x)) xs.
+Proof.
+  unfold end_of_batch, update_endpoints. pose proof (upd_all_files plus false xs) as Hf.
+  destruct (upd_all plus false xs) as [sts need]. simpl in *. rewrite andb_false_r.
+  unfold reload_all. rewrite map_map. simpl. rewrite <- Hf. reflexivity.
+Qed.
+
+(* ... and without that reload NGINX Plus (and OSS) keeps what it had: the reload is necessary *)
+Theorem batch_without_reload_stale plus xs :
+  map snd (end_of_batch false (update_endpoints plus false xs)) = map (fun x => snd (snd x)) xs.
+Proof.
+  unfold end_of_batch, update_endpoints.
+  assert (H : map snd (fst (upd_all plus false xs)) = map (fun x => snd (snd x)) xs).
+  { induction xs as [|[[ok new] st] r IH]; [reflexivity|]. simpl.
+    destruct (upd_all plus false r) as [sts need']. simpl in *.
+    destruct plus; simpl; f_equal; assumption. }
+  destruct (upd_all plus false xs) as [sts need]. simpl in *. now rewrite andb_false_r.
+Qed.
+
 (* ====================== what is false: concrete witnesses ====================== *)
 
 Definition w_svc (pname : string) (port : Z) (t : target) : Service :=
